@@ -365,6 +365,10 @@ class Topology(ABC):
         # make sure name is unique within the topology
         if name in self._list_links().keys():
             raise TopologyException('Link names must be unique within topology.')
+        # the port of a network service has exactly one peer, created by connect_interface() or peer()
+        if isinstance(interfaces, (list, tuple)) and \
+                any(isinstance(i, Interface) and i.type == InterfaceType.ServicePort for i in interfaces):
+            raise TopologyException('Links cannot be added to network service ports, use connect_interface() or peer()')
         link = Link(name=name, node_id=node_id, ltype=ltype, interfaces=interfaces,
                     etype=ElementType.NEW, topo=self, technology=technology, **kwargs)
         return link
